@@ -93,7 +93,7 @@ open SST.Generated SST.AccessSpec in
   halves of a get; the client's `currentSSTable` snapshot holds the manager read lock;
 * `reflectCompactionResult` writes only under db write lock + manager write lock; the selection
   (`candidateTablesForCompaction`) and the merge (`executeCompaction`) hold no db lock;
-* the rotation hands the flusher `swapMemstore(db)`: swap first (operand evaluation), then the send, on an
+* the rotation hands the flusher `swapMemstore(r)` (`r`: the receiver, whatever it is called): swap first (operand evaluation), then the send, on an
   UNBUFFERED channel (`make(chan memStoreFlushAction)`): the send completes only when the flusher is back at its
   receive, i.e. has installed the previous table — which is why `DBM.rotate` starts with `flushStep`. -/
 theorem lock_facts_as_modelled :
@@ -109,7 +109,7 @@ theorem lock_facts_as_modelled :
         (!hasL a .dbW && !hasL a .dbR)) = true ∧
     ((accesses.filter fun a => a.fn == "SSTableManager.reflectCompactionResult" && a.kind == .write).length > 0) ∧
     ((accesses.filter fun a => a.thread == .client && a.kind == .write).length > 0) ∧
-    flushSends = [("DB.VerifWaitFlushIdle", "&empty"), ("DB.rotateWalAndFlushMemstore", "swapMemstore(db)")] ∧
+    flushSends = [("DB.VerifWaitFlushIdle", "&v0"), ("DB.rotateWalAndFlushMemstore", "swapMemstore(r)")] ∧
     dbChannels.lookup "storeFlushChannel" = some "make(chan memStoreFlushAction)" := by
   decide +kernel
 
